@@ -136,8 +136,20 @@ func genNd(rng *rand.Rand, g *jsonGen) genFile {
 			ln = []string{"", " ", "\t "}[rng.Intn(3)]
 		}
 		if r == damage {
-			ln = g.mutate(ln)
-			ln = strings.NewReplacer("\n", " ", "\r", " ").Replace(ln)
+			// structural damage that no lexical leniency of the scanner can excuse (liberal number
+			// spellings such as "1." are accepted by design): only containers are damaged, by
+			// dropping the last closer or by appending a stray closer / garbage
+			t := strings.TrimSpace(ln)
+			if t != "" && (t[0] == '{' || t[0] == '[') {
+				switch rng.Intn(3) {
+				case 0:
+					ln = t[:len(t)-1]
+				case 1:
+					ln = t + string(t[len(t)-1])
+				default:
+					ln = t + " x"
+				}
+			}
 		}
 		trimmed := strings.TrimSpace(ln)
 		info := lineInfo{Blank: trimmed == "", Val: trimmed != "" && stdjson.Valid([]byte(ln))}
